@@ -66,7 +66,7 @@ def infoL (encl : List String) : List Instr → List ProbeInfo
 end
 
 def infoF (f : Orca.Sem.Func) : List ProbeInfo :=
-  mk "fentry" "" f.entry ++ mk "fexit" "" f.exit ++ infoL [] f.body
+  mk "fentry" "" f.entry ++ mk "fexit" "" f.exit ++ infoL [] f.body ++ mk "before" "final-end" f.endBefore
 
 mutual
 /-- largest number of flagged bodies one construct's `end` has to dispatch -/
